@@ -140,3 +140,54 @@ Example override_contract_follows_registered_name :
   spec_sig_str (spec_of ex_override) = "foo(uint64)uint64"%string /\
   dispatched_sig_str ex_override = "foo(uint64)uint64"%string.
 Proof. vm_compute. split; reflexivity. Qed.
+
+(* ------------------------------------------------------------------------------------------ *)
+(* rejected registration attempts leave no trace; every dispatched signature is listed once      *)
+(* ------------------------------------------------------------------------------------------ *)
+Section AttemptsProofs.
+  Variable hash : string -> bytes.
+
+  Theorem rejected_attempt_leaves_contract_main : forall st a,
+    accepts hash st a = None ->
+    attempt_step hash st a = st /\ contract_methods (attempt_step hash st a) = contract_methods st.
+  Proof. intros st a H. unfold attempt_step. rewrite H. split; reflexivity. Qed.
+
+  Theorem accepted_attempt_appends_main : forall st a r,
+    accepts hash st a = Some r ->
+    contract_methods (attempt_step hash st a) = contract_methods st ++ [spec_of r].
+  Proof.
+    intros st a r H. unfold attempt_step, contract_methods. rewrite H. rewrite map_app. reflexivity.
+  Qed.
+
+  Lemma accepts_fresh : forall st a r,
+    accepts hash st a = Some r -> ~ In (dispatched_sig_str r) (map dispatched_sig_str st).
+  Proof.
+    intros st a r H. destruct a as [r0 never |]; [| discriminate H]. cbn [accepts] in H.
+    destruct never; [discriminate H |].
+    destruct (existsb (fun r' => String.eqb (dispatched_sig_str r') (dispatched_sig_str r0)) st) eqn:E; [discriminate H |].
+    destruct (existsb (fun r' => bytes_eqb (reg_selector hash r') (reg_selector hash r0)) st); [discriminate H |].
+    inversion H; subst r0. intro Hin. apply in_map_iff in Hin. destruct Hin as [r' [Heq Hin]].
+    assert (existsb (fun r'0 => String.eqb (dispatched_sig_str r'0) (dispatched_sig_str r)) st = true).
+    { apply existsb_exists. exists r'. split; [exact Hin | apply String.eqb_eq; exact Heq]. }
+    congruence.
+  Qed.
+
+  Lemma NoDup_snoc : forall {A} (l : list A) x, NoDup l -> ~ In x l -> NoDup (l ++ [x]).
+  Proof.
+    intros A l x Hl Hx. apply NoDup_app_intro; [exact Hl | constructor; [intros [] | constructor] |].
+    intros y Hy [-> | []]. exact (Hx Hy).
+  Qed.
+
+  (* whatever sequence of attempts (accepted or rejected) a router has seen, its contract lists every
+     dispatched signature exactly once *)
+  Theorem contract_lists_each_once_main : forall l st,
+    NoDup (map dispatched_sig_str st) ->
+    NoDup (map (fun m => spec_sig_str m) (contract_methods (run_attempts hash st l))).
+  Proof.
+    intro l. induction l as [| a l IH]; intros st Hst; cbn [run_attempts fold_left].
+    - unfold contract_methods. rewrite map_map.
+      erewrite map_ext; [exact Hst |]. intro r. apply spec_sig_is_method_sig.
+    - apply IH. unfold attempt_step. destruct (accepts hash st a) as [r |] eqn:E; [| exact Hst].
+      rewrite map_app. cbn [map]. apply NoDup_snoc; [exact Hst | eapply accepts_fresh; eauto].
+  Qed.
+End AttemptsProofs.
